@@ -322,7 +322,7 @@ func (m *renomModel) issuedList() []string {
 }
 
 func checkC20(c *runCtx) {
-	c.assume("renomination values are issued by the agent's own generator (1,2,3,...)", "automatic renomination (RTT heuristics) is disabled",
+	c.assume("renomination values come from the generator handed to WithRenomination: 1,2,3,... and, in one configuration, the non-monotonic 2,1,3", "automatic renomination (RTT heuristics) is disabled",
 		"the session is first connected by the shortest default schedule; datagrams still in flight at that moment stay in flight")
 	// ---- API preconditions (BE-style, one bubble each)
 	inBubble(c.t, func() {
@@ -368,8 +368,12 @@ func checkC20(c *runCtx) {
 		sp{"2x1, controlled side's check on the second pair still in flight, <=2 renominations, <=1 dup, depth<=8", renomCfg{pairCfg{KindsA: h2, KindsB: h1, PrioA: lowHigh, Ticks: 1, Dups: 1}, 2, 8, []string{"b0>a1:request"}}},
 		sp{"2x1, answer to the controlled side's check on the second pair still in flight, <=2 renominations, depth<=8", renomCfg{pairCfg{KindsA: h2, KindsB: h1, PrioA: lowHigh, Ticks: 1}, 2, 8, []string{"a1>b0:success response"}}},
 	)
+	specs = append(specs,
+		sp{"2x1, application generator that is not monotonic (2,1,3), <=2 renominations, <=1 dup, depth<=8", renomCfg{pairCfg{KindsA: h2, KindsB: h1, PrioA: lowHigh, Ticks: 1, Dups: 1, NomValues: []uint32{2, 1, 3}}, 2, 8, nil}},
+	)
 	if !c.quick() {
 		specs = append(specs,
+			sp{"2x1, generator (2,1,3), <=3 renominations, <=1 drop, depth<=10", renomCfg{pairCfg{KindsA: h2, KindsB: h1, PrioA: lowHigh, Ticks: 1, Drops: 1, NomValues: []uint32{2, 1, 3}}, 3, 10, nil}},
 			sp{"2x1, <=3 renominations, <=1 drop, <=1 dup, depth<=11", renomCfg{pairCfg{KindsA: h2, KindsB: h1, PrioA: lowHigh, Ticks: 1, Drops: 1, Dups: 1}, 3, 11, nil}},
 			sp{"2x2, <=2 renominations, <=1 dup, depth<=9", renomCfg{pairCfg{KindsA: h2, KindsB: h2, PrioA: lowHigh, PrioB: lowHigh, Ticks: 1, Dups: 1}, 2, 9, []string{"b0>a1:request", "b1>a1:request"}}},
 		)
